@@ -133,6 +133,19 @@ func SelectOrder(n int) int {
 	return o
 }
 
+// AcquirePoints makes every successful lock acquisition a scheduling point as well, so that other threads can
+// run WHILE the lock is held. With blocking locks only this adds nothing (they would just block), which is why
+// it is off by default; the instrumenter switches it on when the code under test calls TryLock / TryRLock,
+// whose result depends on exactly that.
+var AcquirePoints bool
+
+// AcquiredPoint is called by the shims right after a lock was taken.
+func AcquiredPoint(desc string) {
+	if AcquirePoints {
+		Op(nil, 0, desc)
+	}
+}
+
 // ReleasePoint is called by the shims after a release.
 func ReleasePoint(desc string) {
 	if ReleasePoints {
